@@ -47,7 +47,7 @@ let parse_op (r : reader) : aop =
     | "C" -> let h = next_int r in let txs = read_list r next_int in OConnect (n_of_int h, List.map n_of_int txs)
     | "D" -> ODisconnect
     | t -> failwith ("unknown op " ^ t) in
-  let kind = (match tag with "R" -> "reg" | "A" -> "add" | "G" -> "get" | "C" -> "connect" | "D" -> "disconnect" | x -> x) in
+  let kind = (match tag with "R" -> "reg" | "A" -> "add" | "G" -> "get" | "S" -> "getsub" | "C" -> "connect" | "D" -> "disconnect" | x -> x) in
   { op; kind; text = String.concat " " (Array.to_list (Array.sub r.toks start (r.pos - start))) }
 
 let parse_script r = read_list r (fun r -> let t = next_int r in let g = next_int r in let s = next_int r in
@@ -98,25 +98,29 @@ let result_tokens (x : out) : string list =
   | OGetRes GetNotFound -> ["GN"]
   | OGetRes GetAuth -> ["GU"]
   | OGetRes (GetExpired e) -> ["GE"; i e]
-  | OSubRes _ -> ["S?"]
+  | OSubRes (SubOk (sl, e, locs)) ->
+      let ls = List.sort compare (List.map int_of_n locs) in
+      ["SO"; i sl; i e; string_of_int (List.length ls)] @ List.map string_of_int ls
+  | OSubRes SubAuth -> ["SU"]
+  | OSubRes (SubExpired e) -> ["SE"; i e]
   | OBlockRes -> ["B"]
   | OAbort _ -> ["X"]
 
 let site_name (s : site) : string =
   match s with
   | S_gk_new_user_expiry_overflow -> "S_gk_new_user_expiry_overflow" | S_gk_store_user_unwrap -> "S_gk_store_user_unwrap"
-  | S_gk_outdated_overflow -> "S_gk_outdated_overflow" | S_gk_charge_user_unwrap -> "S_gk_charge_user_unwrap"
+  | S_gk_outdated_overflow -> "S_gk_outdated_overflow"
   | S_gk_refund_row_unwrap -> "S_gk_refund_row_unwrap" | S_gk_refund_user_unwrap -> "S_gk_refund_user_unwrap"
   | S_gk_refund_overflow -> "S_gk_refund_overflow" | S_gk_disconnect_underflow -> "S_gk_disconnect_underflow"
-  | S_w_store_update_unwrap -> "S_w_store_update_unwrap" | S_w_store_insert_unwrap -> "S_w_store_insert_unwrap"
-  | S_w_store_triggered_unwrap -> "S_w_store_triggered_unwrap" | S_w_load_appointment_unwrap -> "S_w_load_appointment_unwrap"
+  | S_w_store_update_unwrap -> "S_w_store_update_unwrap"
+  | S_w_store_triggered_unwrap -> "S_w_store_triggered_unwrap"
   | S_w_cache_update -> "S_w_cache_update" | S_w_disconnect_underflow -> "S_w_disconnect_underflow"
   | S_r_get_height_unwrap -> "S_r_get_height_unwrap" | S_r_index_update -> "S_r_index_update"
   | S_r_confirm_update_unwrap -> "S_r_confirm_update_unwrap" | S_r_confirmations_underflow -> "S_r_confirmations_underflow"
   | S_r_missed_log_underflow -> "S_r_missed_log_underflow" | S_r_reorg_load_tracker_unwrap -> "S_r_reorg_load_tracker_unwrap"
   | S_r_reorg_update_unwrap -> "S_r_reorg_update_unwrap" | S_r_reorg_unreachable -> "S_r_reorg_unreachable"
   | S_r_stale_underflow -> "S_r_stale_underflow" | S_r_stale_load_tracker_unwrap -> "S_r_stale_load_tracker_unwrap"
-  | S_r_stale_update_unwrap -> "S_r_stale_update_unwrap" | S_api_expired_unwrap -> "S_api_expired_unwrap"
+  | S_r_stale_update_unwrap -> "S_r_stale_update_unwrap"
 
 (* ---------------- the current case ---------------- *)
 type case = {
